@@ -1,5 +1,5 @@
 // watchdog.go — "decoding never … hangs": every case announces itself (beat) before it calls into gocoin; when no case
-// finished for hangAfter, the case in flight is reported as a concrete failing input (key decode-hang) and the run ends.
+// finished for hangAfter(), the case in flight is reported as a concrete failing input (key decode-hang) and the run ends.
 // Without this a hang inside btc.Block.BuildTxListExt (its worker goroutines and WaitGroup) or inside a handler that holds
 // network.MutexRcv would stop the whole check: Go's own deadlock detector does not fire here because the client packages
 // this harness links (client/network, txpool, peersdb) keep timer goroutines alive.
@@ -12,7 +12,13 @@ import (
 	"time"
 )
 
-const hangAfter = 45 * time.Second
+// the longest legitimate case (a 2.6 MB transaction through the Lean oracle, thorough tier) takes a few seconds
+func hangAfter() time.Duration {
+	if r != nil && r.Thorough() {
+		return 120 * time.Second
+	}
+	return 45 * time.Second
+}
 
 type wdCase struct {
 	what string
@@ -54,7 +60,7 @@ func startWatchdog() {
 				last, since = n, time.Now()
 				continue
 			}
-			if time.Since(since) < hangAfter {
+			if time.Since(since) < hangAfter() {
 				continue
 			}
 			wdMu.Lock()
@@ -63,7 +69,7 @@ func startWatchdog() {
 			if c.doc == nil {
 				c.doc = map[string]interface{}{"op": "none", "note": "no case had announced itself"}
 			}
-			r.PropFail("decode-hang", fmt.Sprintf("the call has not returned after %v (decoding must never hang): %s", hangAfter, c.what), c.doc)
+			r.PropFail("decode-hang", fmt.Sprintf("the call has not returned after %v (decoding must never hang): %s", hangAfter(), c.what), c.doc)
 			r.Finish("run ended by the watchdog", "a call into the decoder did not return")
 		}
 	}()
